@@ -71,7 +71,7 @@ NUM = {"measures": ["mean", "sum", "stddev"], "valid_counts": True}
 BASES = {
     # name: schema, weights, nums, quickN, thoroughN
     "rows_cat_x_cat": (S.schema2("rows_cat_x_cat", A3, B3, weighted=True), (1, 2), (None,), 2, 3),
-    "rows_cat_x_cat_num": (S.schema2("rows_cat_x_cat_num", A3, B3, numeric=dict(NUM)), (1,), (None, 1, 3), 2, 2),
+    "rows_cat_x_cat_num": (S.schema2("rows_cat_x_cat_num", A3, B3, numeric=dict(NUM)), (1,), (1, 3), 2, 2),
     "rows_cat_x_mr": (S.schema2("rows_cat_x_mr", A3, M2), (1,), (None,), 2, 2),
     "rows_mr_x_cat": (S.schema2("rows_mr_x_cat", M2, B3), (1,), (None,), 2, 2),
     "cols_cat_x_cat": (S.schema2("cols_cat_x_cat", B3, A3, weighted=True), (1, 2), (None,), 2, 3),
